@@ -10,7 +10,7 @@ def make_cases(tier, seed):
     cases = []
     for i in range(n):
         r = gen.seeded(seed, 'C13', i)
-        kw = dict(direct=False, weights=dict(rotate=r.choice([10, 18, 30]), addbp=6, setactive=8, edit=2), nops=r.choice([8, 25, 60]))
+        kw = dict(direct=False, weights=dict(rotate=r.choice([10, 18, 30]), addbp=6, setactive=8, edit=2, rotate_bad=3), nops=r.choice([8, 25, 60]))
         if i % 5 == 0:
             kw['weights'].update(qr=5, aec=2, mm=2)       # consecutive rotations with (almost) nothing written
         if i % 7 == 0:
@@ -66,13 +66,94 @@ def steered_cases(tier, seed):
     return [build(t) for t in templ], sum(1 for t in templ if t.get('hit'))
 
 
+def faulted_rotations(tier, seed):
+    """one write to some output fails (once); every OTHER output of the history - in particular those opened by later
+    rotations - must still be a complete, self-contained file (or empty)"""
+    import concurrent.futures as cf
+    import copy
+    import os
+    from vlib import build, cbor, cdns_schema, runner
+    from vlib.findings import Violation
+    from . import sysutil, c16
+    vs = []
+    drvd, _ = build.ensure('asan')
+    exe = os.path.join(drvd, 'vdrv')
+    base = runner.workdir('c13f')
+    runs = 0
+    try:
+        scen = []
+        for name, case, pre in sysutil.scenario_cases(seed, tier):
+            if not ('rot3' in name or 'empty_rotation' in name):
+                continue
+            for kind in ('name', 'fd'):
+                c = copy.deepcopy(case)
+                c['open']['kind'] = kind
+                ops = []
+                for op in c['ops']:
+                    if op['op'] == 'rotate':
+                        # exporting rotations are split into write_block() + rotate_output(.., false): a rotation that throws can then
+                        # only have failed while closing the old output, after which the library has switched to the new one
+                        # (the driver has to know which output is current to label its snapshots)
+                        if op['export']:
+                            ops.append({'op': 'wb'})
+                        op = dict(op, export=False, adopt_on_fail=True)
+                    ops.append(op)
+                c['ops'] = ops
+                scen.append((name + '/' + kind, c))
+        jobs = []
+        for si, (name, c) in enumerate(scen):
+            d = sysutil.prepare_dir(base, 'dry%d' % si, c, {})
+            rc, res, sl, err = sysutil.sysrun(exe, c, d, {'mode': 'count'})
+            if rc != 0:
+                continue
+            ws = [e for e in sl if e['call'] in ('write', 'writev') and e['req'] > 0]
+            step = 1 if tier != 'quick' else 2
+            for e in ws[::step]:
+                jobs.append((si, e['w']))
+
+        def job(j):
+            si, k = j
+            name, c = scen[si]
+            d = sysutil.prepare_dir(base, 'f%d_%d' % (si, k), c, {})
+            rc, res, sl, err = sysutil.sysrun(exe, c, d, {'mode': 'fault', 'k': k, 'err': 'ENOSPC', 'persist': False})
+            return si, k, rc, res, [e for e in sl if e.get('injected')], sysutil.final_files(d, c), err
+        with cf.ThreadPoolExecutor(max_workers=runner.NCPU) as ex:
+            results = list(ex.map(job, jobs))
+        for si, k, rc, res, inj, files, err in results:
+            name, c = scen[si]
+            comp = c['open']['comp']
+            if rc != 0:
+                tr = runner.triage(err, rc) or ('exit-%s' % rc, 'unknown-frame', err[-1500:])
+                vs.append(Violation(PROP, '%s:faulted-rotation:%s:%s' % (PROP, tr[0], tr[1]), 'scenario %s with one failing write: process died' % name, {'case': c, 'k': k, 'report': tr[2]}))
+                continue
+            if not inj:
+                continue
+            runs += 1
+            X = c16.out_id(inj[0]['path'], c['id'])
+            for fn, data in files.items():
+                if fn.endswith('.part') or c16.out_id(fn, c['id']) == X:
+                    continue
+                try:
+                    plain = pipeline.decompress(comp, data)
+                    if plain:
+                        cdns_schema.parse(plain)
+                except (pipeline.StreamError, cbor.CborError, cdns_schema.SchemaError) as x:
+                    vs.append(Violation(PROP, '%s:other-output-damaged-by-a-failed-write:%s:%s' % (PROP, c['open']['kind'], comp),
+                                        'scenario %s: write %d to output %s failed; output %s (not the failed one) is not a complete file by itself: %s' % (name, k, X, c16.out_id(fn, c['id']), x), {'case': c, 'k': k}))
+                    break
+    finally:
+        runner.cleanup(base)
+    return vs, runs
+
+
 def run(tier, seed):
     cases = make_cases(tier, seed)
     steered, steered_hits = steered_cases(tier, seed)
     cases += steered
+    fvs, fruns = faulted_rotations(tier, seed)
     er = ExportRun(PROP, cases, 'c13', need_lib_read=True)
     try:
-        vs = er.violations
+        vs = er.violations + fvs
         empty_outputs = carried = consecutive = 0
         for pc in er.per_case:
             if pc is None:
@@ -90,7 +171,7 @@ def run(tier, seed):
                 prev = op['op']
             # records buffered at a non-exporting rotation: model counters tell
         obs = dict(er.obs)
-        obs.update(outputs_without_blocks=empty_outputs, consecutive_rotations=consecutive, closing_break_written_at_steered_buffer_fill=steered_hits)
+        obs.update(outputs_without_blocks=empty_outputs, consecutive_rotations=consecutive, closing_break_written_at_steered_buffer_fill=steered_hits, histories_with_one_failing_write=fruns)
         nt = er.nontrivial(lambda pc: sum(1 for o in pc['case']['ops'] if o['op'] == 'rotate') >= 1 and len(pc['docs']) >= 1)
         cov = dict(evaluations=len(cases), distinct_nontrivial=nt,
                    rule='exporter histories with rotate_output(name|fd, export in {true,false}), consecutive rotations, add/set block parameters, all compressions; '
